@@ -4,6 +4,8 @@ package props
 import (
 	_ "verif/internal/props/c01"
 	_ "verif/internal/props/c02"
+	_ "verif/internal/props/c03"
+	_ "verif/internal/props/c04"
 	_ "verif/internal/props/c05"
 	_ "verif/internal/props/c15"
 	_ "verif/internal/props/c18"
